@@ -1,8 +1,8 @@
 package main
 
 import (
-	"math"
 	"fmt"
+	"math"
 	"strings"
 
 	"github.com/golang/geo/s2"
